@@ -363,8 +363,10 @@ impl DrawExecutor {
     fn draw_ellipse(&mut self, xm: i32, ym: i32, a: i32, b: i32) {
         let mut x = -a;
         let mut y = 0; /* II. quadrant from bottom left to top right */
-        let e2 = b * b;
-        let mut err = x * (2 * e2 + x) + e2; /* error of 1.step */
+        // the error terms are cubic in the radii
+        let (a64, b64) = (a as i64, b as i64);
+        let e2 = b64 * b64;
+        let mut err = x as i64 * (2 * e2 + x as i64) + e2; /* error of 1.step */
         let color = self.line_color;
 
         while x <= 0 {
@@ -373,15 +375,15 @@ impl DrawExecutor {
             self.set_pixel(xm + x, ym - y, color); /* III. Quadrant */
             self.set_pixel(xm - x, ym - y, color); /*  IV. Quadrant */
             let e2 = 2 * err;
-            if e2 >= (x * 2 + 1) * b * b {
+            if e2 >= (x as i64 * 2 + 1) * b64 * b64 {
                 /* e_xy+e_x > 0 */
                 x += 1;
-                err += (x * 2 + 1) * b * b;
+                err += (x as i64 * 2 + 1) * b64 * b64;
             }
-            if e2 <= (y * 2 + 1) * a * a {
+            if e2 <= (y as i64 * 2 + 1) * a64 * a64 {
                 /* e_xy+e_y < 0 */
                 y += 1;
-                err += (y * 2 + 1) * a * a;
+                err += (y as i64 * 2 + 1) * a64 * a64;
             }
         }
 
@@ -396,23 +398,25 @@ impl DrawExecutor {
     fn fill_ellipse(&mut self, xm: i32, ym: i32, a: i32, b: i32) {
         let mut x = -a;
         let mut y = 0; /* II. quadrant from bottom left to top right */
-        let e2 = b * b;
-        let mut err = x * (2 * e2 + x) + e2; /* error of 1.step */
+        // the error terms are cubic in the radii
+        let (a64, b64) = (a as i64, b as i64);
+        let e2 = b64 * b64;
+        let mut err = x as i64 * (2 * e2 + x as i64) + e2; /* error of 1.step */
         let color = self.line_color;
 
         while x <= 0 {
             self.fill_rect(xm - x, ym + y, xm + x, ym + y); /*  II. Quadrant */
             self.fill_rect(xm + x, ym - y, xm - x, ym - y); /*  IV. Quadrant */
             let e2 = 2 * err;
-            if e2 >= (x * 2 + 1) * b * b {
+            if e2 >= (x as i64 * 2 + 1) * b64 * b64 {
                 /* e_xy+e_x > 0 */
                 x += 1;
-                err += (x * 2 + 1) * b * b;
+                err += (x as i64 * 2 + 1) * b64 * b64;
             }
-            if e2 <= (y * 2 + 1) * a * a {
+            if e2 <= (y as i64 * 2 + 1) * a64 * a64 {
                 /* e_xy+e_y < 0 */
                 y += 1;
-                err += (y * 2 + 1) * a * a;
+                err += (y as i64 * 2 + 1) * a64 * a64;
             }
         }
 
@@ -431,6 +435,12 @@ impl DrawExecutor {
         if x0 > x1 {
             std::mem::swap(&mut x0, &mut x1);
         }
+        // only the part on the screen is visited
+        let res = self.get_resolution();
+        x0 = x0.max(0);
+        y0 = y0.max(0);
+        x1 = x1.min(res.width - 1);
+        y1 = y1.min(res.height - 1);
 
         for y in y0..=y1 {
             for x in x0..=x1 {
@@ -440,6 +450,9 @@ impl DrawExecutor {
     }
 
     fn draw_poly(&mut self, parameters: &[i32]) {
+        if parameters.len() < 2 {
+            return;
+        }
         let mut x = parameters[0];
         let mut y = parameters[1];
         let mask = self.line_type.get_mask();
@@ -457,6 +470,9 @@ impl DrawExecutor {
     }
 
     fn draw_polyline(&mut self, parameters: &[i32]) {
+        if parameters.len() < 2 {
+            return;
+        }
         let mut x = parameters[0];
         let mut y = parameters[1];
         let mask = self.line_type.get_mask();
@@ -473,6 +489,10 @@ impl DrawExecutor {
 
     fn fill_poly(&mut self, points: &[i32]) {
         let max_vertices = 512;
+        if points.len() < 2 {
+            return;
+        }
+        let res = self.get_resolution();
 
         let mut i = 3;
         let mut y_max = points[1];
@@ -489,7 +509,8 @@ impl DrawExecutor {
         }
 
         // VDI apparently loops over the scan lines from bottom to top
-        for y in (y_min..=y_max).rev() {
+        // only the scan lines on the screen are visited
+        for y in (y_min.max(0)..=y_max.min(res.height - 1)).rev() {
             // Set up counter for vector intersections
             let mut intersections = 0;
 
@@ -541,9 +562,9 @@ impl DrawExecutor {
 
                     // Add X value for this vector to edge buffer
                     if dx < 0 {
-                        edge_buffer.push(((dy2 * dx / dy + 1) >> 1) + x2);
+                        edge_buffer.push((((dy2 as i64 * dx as i64 / dy as i64 + 1) >> 1) + x2 as i64) as i32);
                     } else {
-                        edge_buffer.push(((dy1 * dx / dy + 1) >> 1) + x1);
+                        edge_buffer.push((((dy1 as i64 * dx as i64 / dy as i64 + 1) >> 1) + x1 as i64) as i32);
                     }
                 }
             }
@@ -571,7 +592,7 @@ impl DrawExecutor {
                 let x1 = edge_buffer[j];
                 let x2 = edge_buffer[j + 1];
                 // Fill in all pixels horizontally from (x1, y) to (x2, y)
-                for k in x1..=x2 {
+                for k in x1.max(0)..=x2.min(res.width - 1) {
                     self.fill_pixel(k, y);
                 }
                 j += 2;
@@ -616,11 +637,16 @@ impl DrawExecutor {
     }
 
     fn blit_screen_to_screen(&mut self, _write_mode: i32, from: Position, to: Position, dest: Position) {
-        let width = to.x - from.x;
-        let height = to.y - from.y;
+        let res = self.get_resolution();
+        // only the part that is on the screen at the source and at the destination is copied
+        let width = (to.x - from.x).min(res.width);
+        let height = (to.y - from.y).min(res.height);
 
         for y in 0..height {
             for x in 0..width {
+                if self.pixel_offset(from.x + x, from.y + y).is_none() {
+                    continue;
+                }
                 let color = self.get_pixel(from.x + x, from.y + y);
                 self.set_pixel(dest.x + x, dest.y + y, color);
             }
@@ -643,7 +669,11 @@ impl DrawExecutor {
                 if dest.x + x >= res.width {
                     break;
                 }
-                let offset = (yp * width + xp) as usize;
+                // a position in the grabbed picture, which can be smaller than the requested piece
+                if xp < 0 || yp < 0 || xp >= self.screen_memory_size.width || yp >= self.screen_memory_size.height {
+                    continue;
+                }
+                let offset = (yp * self.screen_memory_size.width + xp) as usize;
                 let color = self.screen_memory[offset];
                 self.set_pixel(dest.x + x, dest.y + y, color);
             }
@@ -651,6 +681,10 @@ impl DrawExecutor {
     }
 
     fn blit_screen_to_memory(&mut self, _write_mode: i32, from: Position, to: Position) {
+        // the grabbed picture is the part of the rectangle that is on the screen
+        let res = self.get_resolution();
+        let from = Position::new(from.x.clamp(0, res.width), from.y.clamp(0, res.height));
+        let to = Position::new(to.x.clamp(from.x, res.width), to.y.clamp(from.y, res.height));
         let width = to.x - from.x;
         let height = to.y - from.y;
 
@@ -776,6 +810,9 @@ impl CommandExecutor for DrawExecutor {
         string_parameter: &str,
     ) -> EngineResult<CallbackAction> {
         // println!("cmd:{command:?} params:{parameters:?}");
+        // IGS numbers are 16 bit values
+        let parameters: Vec<i32> = parameters.iter().map(|p| (*p).clamp(i16::MIN as i32, i16::MAX as i32)).collect();
+        let parameters = &parameters[..];
         match command {
             IgsCommands::Initialize => {
                 if parameters.len() != 1 {
@@ -876,7 +913,7 @@ impl CommandExecutor for DrawExecutor {
                     return Err(anyhow::anyhow!("PolyFill requires minimun 1 arguments"));
                 }
                 let points: i32 = parameters[0];
-                if points * 2 + 1 != parameters.len() as i32 {
+                if points < 1 || points * 2 + 1 != parameters.len() as i32 {
                     return Err(anyhow::anyhow!("PolyFill requires {} arguments was {} ", points * 2 + 1, parameters.len()));
                 }
                 self.fill_poly(&parameters[1..]);
@@ -891,7 +928,7 @@ impl CommandExecutor for DrawExecutor {
                     return Err(anyhow::anyhow!("PolyLine requires minimun 1 arguments"));
                 }
                 let points: i32 = parameters[0];
-                if points * 2 + 1 != parameters.len() as i32 {
+                if points < 1 || points * 2 + 1 != parameters.len() as i32 {
                     return Err(anyhow::anyhow!("PolyLine requires {} arguments was {} ", points * 2 + 1, parameters.len()));
                 }
                 self.draw_polyline(&parameters[1..]);
@@ -1127,7 +1164,12 @@ impl CommandExecutor for DrawExecutor {
                 Ok(CallbackAction::Update)
             }
 
-            IgsCommands::TimeAPause => Ok(CallbackAction::Pause(1000 * parameters[0] as u32)),
+            IgsCommands::TimeAPause => {
+                if parameters.len() != 1 {
+                    return Err(anyhow::anyhow!("TimeAPause command requires 1 argument"));
+                }
+                Ok(CallbackAction::Pause(1000 * parameters[0].max(0) as u32))
+            }
 
             IgsCommands::PolymarkerPlot => {
                 if parameters.len() != 2 {
